@@ -33,7 +33,7 @@ def ensure_client():
     with build.Lock(os.path.join(build.CACHE, "locks", "vg-%s.lock" % os.path.basename(bdir))):
         if not os.path.exists(exe):
             cmd = ["gcc", "-O1", "-g", "-fno-omit-frame-pointer", "-I", os.path.join(build.REPO, "include"), "-I", os.path.join(bdir, "include"), "-I", bdir,
-                   "-o", exe + ".tmp", CLIENT, os.path.join(bdir, "libsndfile.a"), "-lm"]
+                   "-o", exe + ".tmp", CLIENT, os.path.join(bdir, "libsndfile.a"), "-lm"] + (["-lgcov"] if build.COVERAGE else [])
             r = build.run(cmd, check=False)
             if r.returncode != 0:
                 raise build.BuildError("vgopen does not compile against this tree", r.stdout)
